@@ -638,4 +638,217 @@ theorem agree_norm {σ} : ∀ f g x y x' y', agree x y = true → normF f σ x =
     · have hl' := agree_leaf hl ha
       rw [normF_leaf hl'] at hy; cases hy; exact ha
 
+
+/-! ### the post-condition of `unify` -/
+
+/-- `l` and `r` have agreeing normal forms in `σ` -/
+def Eqv (σ : Store) (l r : Ty) : Prop :=
+  ∃ f g x y, normF f σ l = some x ∧ normF g σ r = some y ∧ agree x y = true
+
+def EqvL (σ : Store) : List Ty → List Ty → Prop
+  | [], [] => True
+  | t :: ts, u :: us => Eqv σ t u ∧ EqvL σ ts us
+  | _, _ => False
+
+theorem Eqv.transport {σ σ' l r} (hE : Ext σ σ') (h : Eqv σ l r) : Eqv σ' l r := by
+  obtain ⟨K, H⟩ := hE
+  obtain ⟨f, g, x, y, hx, hy, ha⟩ := h
+  obtain ⟨x2, hx1, hx2⟩ := H _ _ _ hx
+  obtain ⟨y2, hy1, hy2⟩ := H _ _ _ hy
+  exact ⟨_, _, x2, y2, hx1, hy1, agree_norm _ _ _ _ _ _ ha hx2 hy2⟩
+
+theorem EqvL.transport {σ σ'} (hE : Ext σ σ') : ∀ {ts us}, EqvL σ ts us → EqvL σ' ts us
+  | [], [], _ => trivial
+  | [], _ :: _, h => h.elim
+  | _ :: _, [], h => h.elim
+  | _ :: _, _ :: _, h => ⟨h.1.transport hE, EqvL.transport hE h.2⟩
+
+/-- replace both sides by types with the same `σ`-normal forms -/
+theorem Eqv.of_norm {σ l r ln rn f g} (hl : normF f σ l = some ln) (hr : normF g σ r = some rn)
+    (hW : WF σ) (h : Eqv σ ln rn) : Eqv σ l r := by
+  obtain ⟨f', g', x, y, hx, hy, ha⟩ := h
+  have e1 : x = ln := normF_functional hx (normF_idem hW _ _ _ hl)
+  have e2 : y = rn := normF_functional hy (normF_idem hW _ _ _ hr)
+  subst e1; subst e2
+  exact ⟨_, _, _, _, hl, hr, ha⟩
+
+theorem mapO_normF_le {f f' σ ts xs} (h : mapO (normF f σ) ts = some xs) (hle : f ≤ f') :
+    mapO (normF f' σ) ts = some xs :=
+  mapO_congr (fun _ _ _ hx => normF_le hx hle) h
+
+theorem EqvL.lists {σ} : ∀ {ts us}, EqvL σ ts us →
+    ∃ f xs ys, mapO (normF f σ) ts = some xs ∧ mapO (normF f σ) us = some ys ∧ agreeL xs ys = true
+  | [], [], _ => ⟨0, [], [], rfl, rfl, by simp [agreeL]⟩
+  | [], _ :: _, h => h.elim
+  | _ :: _, [], h => h.elim
+  | t :: ts, u :: us, h => by
+    obtain ⟨f1, g1, x, y, hx, hy, ha⟩ := h.1
+    obtain ⟨f2, xs, ys, hxs, hys, has⟩ := EqvL.lists h.2
+    refine ⟨max (max f1 g1) f2, x :: xs, y :: ys, ?_, ?_, by simp [agreeL, ha, has]⟩
+    · exact mapO_cons_some.2 ⟨x, xs, normF_le hx (by omega), mapO_normF_le hxs (by omega), rfl⟩
+    · exact mapO_cons_some.2 ⟨y, ys, normF_le hy (by omega), mapO_normF_le hys (by omega), rfl⟩
+
+/-- what every call of `unify` guarantees, whatever its outcome: the table is still well-formed, the
+new store refines the old one, and if the call returned `true` the two sides now agree -/
+structure Post (σ : Store) (l r : Ty) (res : Option Diag × Store) : Prop where
+  wf : WF res.2
+  ext : Ext σ res.2
+  eqv : res.1 = none → Eqv res.2 l r
+
+abbrev RecOk (rec : Store → Ty → Ty → Res) : Prop :=
+  ∀ σ l r res, WF σ → rec σ l r = some res → Post σ l r res
+
+theorem post_fail {σ l r d} (hW : WF σ) : Post σ l r (some d, σ) :=
+  ⟨hW, Ext.refl hW, fun h => by cases h⟩
+
+theorem unifyList_post {rec} (hrec : RecOk rec) :
+    ∀ σ ts us res, WF σ → unifyList rec σ ts us = some res → ts.length = us.length →
+      WF res.2 ∧ Ext σ res.2 ∧ (res.1 = none → EqvL res.2 ts us)
+  | σ, [], [], res, hW, h, _ => by
+    simp [unifyList, ok] at h; subst h
+    exact ⟨hW, Ext.refl hW, fun _ => trivial⟩
+  | σ, [], _ :: _, res, _, _, hlen => by simp at hlen
+  | σ, _ :: _, [], res, _, _, hlen => by simp at hlen
+  | σ, t :: ts, u :: us, res, hW, h, hlen => by
+    simp only [unifyList] at h
+    cases h1 : rec σ t u with
+    | none => simp [h1] at h
+    | some r1 =>
+      obtain ⟨d1, σ1⟩ := r1
+      have P1 := hrec σ t u _ hW h1
+      cases d1 with
+      | some d =>
+        simp [h1] at h; subst h
+        exact ⟨P1.wf, P1.ext, fun hn => by cases hn⟩
+      | none =>
+        simp [h1] at h
+        obtain ⟨w2, e2, q2⟩ := unifyList_post hrec σ1 ts us res P1.wf h (by simpa using hlen)
+        exact ⟨w2, P1.ext.trans e2, fun hn => ⟨(P1.eqv rfl).transport e2, q2 hn⟩⟩
+
+
+theorem eqv_leaf_refl {σ t} (hl : isLeaf t = true) : Eqv σ t t :=
+  ⟨1, 1, t, t, normF_leaf hl _ _, normF_leaf hl _ _, agree_refl t⟩
+
+theorem post_ok_leaf {σ t} (hW : WF σ) (hl : isLeaf t = true) : Post σ t t (none, σ) :=
+  ⟨hW, Ext.refl hW, fun _ => eqv_leaf_refl hl⟩
+
+theorem eqv_tuple {σ ts us} (h : EqvL σ ts us) : Eqv σ (.tuple ts) (.tuple us) := by
+  obtain ⟨f, xs, ys, hx, hy, ha⟩ := h.lists
+  exact ⟨f+1, f+1, .tuple xs, .tuple ys, by rw [normF_tuple, hx]; rfl, by rw [normF_tuple, hy]; rfl, by simpa [agree] using ha⟩
+
+theorem eqv_cong1 {σ e e'} (C : Ty → Ty) (hn : ∀ f σ e, normF (f+1) σ (C e) = (normF f σ e).map C)
+    (hag : ∀ x y, agree (C x) (C y) = agree x y) (h : Eqv σ e e') : Eqv σ (C e) (C e') := by
+  obtain ⟨f, g, x, y, hx, hy, ha⟩ := h
+  exact ⟨f+1, g+1, C x, C y, by rw [hn, hx]; rfl, by rw [hn, hy]; rfl, by rw [hag]; exact ha⟩
+
+theorem eqv_array {σ n m e e'} (hnm : ¬ (n ≠ m ∧ n ≠ Gen.arrayWildcardLen ∧ m ≠ Gen.arrayWildcardLen))
+    (h : Eqv σ e e') : Eqv σ (.array n e) (.array m e') := by
+  obtain ⟨f, g, x, y, hx, hy, ha⟩ := h
+  refine ⟨f+1, g+1, .array n x, .array m y, by rw [normF_array, hx]; rfl, by rw [normF_array, hy]; rfl, ?_⟩
+  simp only [agree, Bool.and_eq_true, ha, and_true, Bool.or_eq_true, beq_iff_eq]
+  by_cases h1 : n = m
+  · exact .inl (.inl h1)
+  · by_cases h2 : n = Gen.arrayWildcardLen
+    · exact .inl (.inr h2)
+    · by_cases h3 : m = Gen.arrayWildcardLen
+      · exact .inr h3
+      · exact absurd ⟨h1, h2, h3⟩ hnm
+
+theorem eqv_func {σ ps qs r r'} (h1 : EqvL σ ps qs) (h2 : Eqv σ r r') : Eqv σ (.func ps r) (.func qs r') := by
+  obtain ⟨f, xs, ys, hx, hy, ha⟩ := h1.lists
+  obtain ⟨f2, g2, x, y, hx2, hy2, ha2⟩ := h2
+  refine ⟨max f (max f2 g2) + 1, max f (max f2 g2) + 1, .func xs x, .func ys y, ?_, ?_, by simp [agree, ha, ha2]⟩
+  · rw [normF_func, mapO_normF_le hx (by omega)]; simp [normF_le hx2 (show f2 ≤ max f (max f2 g2) by omega)]
+  · rw [normF_func, mapO_normF_le hy (by omega)]; simp [normF_le hy2 (show g2 ≤ max f (max f2 g2) by omega)]
+
+theorem eqv_app {σ t u args brgs} (h2 : Eqv σ t u) (h1 : EqvL σ args brgs) : Eqv σ (.app t args) (.app u brgs) := by
+  obtain ⟨f, xs, ys, hx, hy, ha⟩ := h1.lists
+  obtain ⟨f2, g2, x, y, hx2, hy2, ha2⟩ := h2
+  refine ⟨max f (max f2 g2) + 1, max f (max f2 g2) + 1, .app x xs, .app y ys, ?_, ?_, by simp [agree, ha, ha2]⟩
+  · rw [normF_app, normF_le hx2 (show f2 ≤ max f (max f2 g2) by omega)]; simp [mapO_normF_le hx (show f ≤ max f (max f2 g2) by omega)]
+  · rw [normF_app, normF_le hy2 (show g2 ≤ max f (max f2 g2) by omega)]; simp [mapO_normF_le hy (show f ≤ max f (max f2 g2) by omega)]
+
+theorem unifyCtor_post {rec} (hrec : RecOk rec) {σ l r res} (hW : WF σ)
+    (h : unifyCtor rec σ l r = some res) : Post σ l r res := by
+  unfold unifyCtor at h
+  split at h
+  · cases h; exact post_ok_leaf hW rfl
+  · cases h; exact post_ok_leaf hW rfl
+  · cases h; exact post_ok_leaf hW rfl
+  · split at h
+    · rename_i hc; obtain ⟨rfl, rfl⟩ := hc; cases h; exact post_ok_leaf hW rfl
+    · cases h; exact post_fail hW
+  · split at h
+    · rename_i hc; subst hc; cases h; exact post_ok_leaf hW rfl
+    · cases h; exact post_fail hW
+  · -- tuple
+    split at h
+    · cases h; exact post_fail hW
+    · rename_i hlen
+      obtain ⟨w, e, q⟩ := unifyList_post hrec _ _ _ _ hW h (by simpa using hlen)
+      exact ⟨w, e, fun hn => eqv_tuple (q hn)⟩
+  · -- array
+    split at h
+    · cases h; exact post_fail hW
+    · rename_i hnm
+      have P := hrec _ _ _ _ hW h
+      exact ⟨P.wf, P.ext, fun hn => eqv_array hnm (P.eqv hn)⟩
+  · have P := hrec _ _ _ _ hW h
+    exact ⟨P.wf, P.ext, fun hn => eqv_cong1 Ty.ref normF_ref (fun _ _ => by simp [agree]) (P.eqv hn)⟩
+  · have P := hrec _ _ _ _ hW h
+    exact ⟨P.wf, P.ext, fun hn => eqv_cong1 Ty.vec normF_vec (fun _ _ => by simp [agree]) (P.eqv hn)⟩
+  · -- func
+    split at h
+    · cases h; exact post_fail hW
+    · rename_i hlen
+      split at h
+      · rename_i σ1 h1
+        obtain ⟨w, e, q⟩ := unifyList_post hrec _ _ _ _ hW h1 (by simpa using hlen)
+        have P := hrec _ _ _ _ w h
+        exact ⟨P.wf, e.trans P.ext, fun hn => eqv_func ((q rfl).transport P.ext) (P.eqv hn)⟩
+      · rename_i hx
+        cases hres : unifyList rec σ _ _ with
+        | none => rw [hres] at h; cases h
+        | some r1 =>
+          obtain ⟨d, σ1⟩ := r1
+          rw [hres] at h; cases h
+          obtain ⟨w, e, q⟩ := unifyList_post hrec _ _ _ _ hW hres (by simpa using hlen)
+          refine ⟨w, e, fun hn => ?_⟩
+          have hd : d = none := hn
+          subst hd
+          exact absurd hres (hx σ1)
+  · split at h
+    · cases h; exact post_fail hW
+    · rename_i hc; simp at hc; subst hc; cases h; exact post_ok_leaf hW rfl
+  · split at h
+    · cases h; exact post_fail hW
+    · rename_i hc; simp at hc; subst hc; cases h; exact post_ok_leaf hW rfl
+  · split at h
+    · cases h; exact post_fail hW
+    · rename_i hc; simp at hc; subst hc; cases h; exact post_ok_leaf hW rfl
+  · -- app
+    split at h
+    · cases h; exact post_fail hW
+    · rename_i hlen
+      split at h
+      · rename_i σ1 h1
+        have P := hrec _ _ _ _ hW h1
+        obtain ⟨w, e, q⟩ := unifyList_post hrec _ _ _ _ P.wf h (by simpa using hlen)
+        exact ⟨w, P.ext.trans e, fun hn => eqv_app ((P.eqv rfl).transport e) (q hn)⟩
+      · rename_i hx
+        cases hres : rec σ _ _ with
+        | none => rw [hres] at h; cases h
+        | some r1 =>
+          obtain ⟨d, σ1⟩ := r1
+          rw [hres] at h; cases h
+          have P := hrec _ _ _ _ hW hres
+          refine ⟨P.wf, P.ext, fun hn => ?_⟩
+          have hd : d = none := hn
+          subst hd
+          exact absurd hres (hx σ1)
+  · split at h
+    · cases h; exact post_fail hW
+    · rename_i hc; simp at hc; subst hc; cases h; exact post_ok_leaf hW rfl
+  · split at h <;> (cases h; exact post_fail hW)
+
 end Goml.Unify
